@@ -24,6 +24,11 @@ RULE = ("sweep: one case per (configuration, row) for table rows, per (configura
         "reading of the source text with cells addressed by the documented column names; every case is non-trivial "
         "and distinct by that key.")
 ASSUMPTIONS = [
+    "added isotopes: in the configurations *-added every element 1..118 gets two isotopes with unused mass numbers "
+    "(heaviest tabulated + 1 and + 9) through Element.add_isotope() after the table's neutron data were loaded and "
+    "read; like any isotope without a row they and their first ion must serve no neutron data (has_sld() false, all "
+    "fields None, never the parent element's record), element[A] / isotopes must list them, and the complete sweep "
+    "of that table is repeated afterwards (existing atoms unaffected)",
     "the table text in periodictable/nsf.py and nsf_tables.py is the specification; numbers are float(<bare number>) "
     "and compared bit-identically (None for blank cells); abundance is 0 for a half-life cell",
     "the two gap fills documented in nsf.init are part of the expected record: natural Xe total = coherent + "
@@ -38,7 +43,8 @@ ASSUMPTIONS = [
     "cross-checked against h/sqrt(2 m E) with CODATA-2018 constants (rel 1e-6); returned b_c compared abs 1e-12",
 ]
 
-CONFIGS = ("public", "private-only", "private-after-public", "private-second", "public-after-private")
+CONFIGS = ("public", "private-only", "private-after-public", "private-second", "public-after-private",
+           "public-added", "private-added", "private-only-added")
 NUMERIC = ("b_c", "bp", "bm", "coherent", "incoherent", "total", "absorption")
 ALL_FIELDS = NUMERIC + ("b_c_i", "bp_i", "bm_i", "b_c_complex")
 ABSORPTION_WAVELENGTH = 1.798      # documented: thermal absorption cross section at 1.798 A
@@ -89,6 +95,21 @@ def oracle():
     return _O
 
 
+# configurations in which isotopes are added after loading: name -> configuration whose table is extended
+ADDED = {"public-added": "public-after-private", "private-added": "private-after-public",
+         "private-only-added": "private-only"}
+_MADE = {}
+_MASS_ISO = {}
+
+
+def _mass_isotopes(table):
+    """(z, a) of the isotopes that have a mass of their own (those of the mass table), per table"""
+    key = id(table)
+    if key not in _MASS_ISO:
+        _MASS_ISO[key] = set((el.number, i.isotope) for el in table for i in el if "_mass" in i.__dict__)
+    return _MASS_ISO[key]
+
+
 def env(config):
     """Table of a configuration; the construction order is what the name says."""
     if config in _ENV:
@@ -104,7 +125,21 @@ def env(config):
         nsf.init(t)
         return t
 
-    if config == "public":
+    if config in ADDED:
+        # isotopes with unused mass numbers are registered through the public Element.add_isotope()
+        # AFTER the neutron data of that table were loaded and read
+        base = env(ADDED[config])
+        for el in base:
+            _ = el.neutron.b_c
+        made = {}
+        for z in range(1, 119):
+            el = base[z]
+            top = max(k for k in el.isotopes if (z, k) in _mass_isotopes(base))
+            for a in (top + 1, top + 9):
+                made[(z, a)] = el.add_isotope(a)
+        _MADE[config] = made
+        _ENV[config] = base
+    elif config == "public":
         _ENV["public"] = pub
     elif config == "private-only":
         # the public table is never asked for neutron data in this process
@@ -230,6 +265,39 @@ def check_absent(ctx, case):
         raise V("absent:sld", "%s has no row but sld() = %r" % (label, atom.neutron.sld()), case)
 
 
+def check_added(ctx, case):
+    """case = {kind:'added', config, z, a}: an isotope registered with Element.add_isotope(a) after the neutron
+    table was loaded is listed, is returned by element[a], and it and its ions serve no neutron data."""
+    table = env(case["config"])
+    z, a = case["z"], case["a"]
+    el = table[z]
+    label = "%s-%d" % (el.symbol, a)
+    made = _MADE[case["config"]][(z, a)]
+    if a not in el.isotopes or el[a] is not made or made.isotope != a or el.add_isotope(a) is not made:
+        raise V("added:listing", "%s.add_isotope(%d): isotopes lists it %r, element[a] is it %r"
+                % (el.symbol, a, a in el.isotopes, (a in el.isotopes) and el[a] is made), case)
+    atoms = [(label, made)]
+    if el.ions:
+        c = list(el.ions)[0]
+        atoms.append(("%s{%+d}" % (label, c), made.ion[c]))
+    for lab, atom in atoms:
+        n = atom.neutron
+        if n is None:
+            continue
+        if n is el.neutron and el.neutron.b_c is not None:
+            raise V("added:inherits-element-record", "%s (added after loading, no row) serves the record of natural %s: "
+                    "b_c = %r has_sld() = %r" % (lab, el.symbol, n.b_c, n.has_sld()), case)
+        if n.has_sld() is not False:
+            raise V("added:has_sld", "%s has no row but has_sld() = %r" % (lab, n.has_sld()), case)
+        for f in ALL_FIELDS:
+            if getattr(n, f) is not None:
+                raise V("added:field", "%s has no row but neutron.%s = %r" % (lab, f, getattr(n, f)), case)
+        if n.is_energy_dependent or n.nsf_table is not None:
+            raise V("added:energy-dependent", "%s has no row but is flagged energy dependent" % lab, case)
+        if n.sld() != (None, None, None):
+            raise V("added:sld", "%s has no row but sld() = %r" % (lab, n.sld()), case)
+
+
 def check_node(ctx, case):
     """case = {kind:'node', config, sym, a (0 = element), k, vector}"""
     import numpy as np
@@ -269,7 +337,7 @@ def check_node(ctx, case):
                     "%s at %r eV (node %d of %d): %r, table says %r" % (label, e, j, len(nodes), g, want), case)
 
 
-CHECKS = {"row": check_row, "absent": check_absent, "node": check_node}
+CHECKS = {"row": check_row, "absent": check_absent, "node": check_node, "added": check_added}
 
 
 def sweep(ctx, config):
@@ -281,6 +349,9 @@ def sweep(ctx, config):
         ctx.case((config,) + key, nontrivial=True, sample=dict(sample, config=config), cls=["config:" + config] + cls)
         ctx.check(CHECKS[case["kind"]], case)
 
+    for (z, a) in sorted(_MADE.get(config, {})):
+        run({"kind": "added", "z": z, "a": a}, ("added", z, a), {"added-after-loading": "%s-%d" % (table[z].symbol, a)},
+            ["added-isotope:" + O["element_src"].get(z, ("element-without-rows",))[0]])
     for (z, a), rec in O["rows"].items():
         cls = ["row:" + ("isotope" if a else "element")] + ["cell:" + m for m in rec["marks"]]
         cls += ["gap-fill:" + f for f in rec["fills"]]
@@ -319,9 +390,10 @@ def task_sweep(ctx, configs):
 
 def tasks(tier):
     return [("sweep-public", task_sweep, dict(configs=["public"])),
-            ("sweep-private-only", task_sweep, dict(configs=["private-only"])),
+            ("sweep-private-only", task_sweep, dict(configs=["private-only", "private-only-added"])),
             ("sweep-private-after-public", task_sweep,
-             dict(configs=["public", "private-after-public", "private-second", "public-after-private"]))]
+             dict(configs=["public", "private-after-public", "private-second", "public-after-private"])),
+            ("sweep-added-isotopes", task_sweep, dict(configs=["public-added", "private-added"]))]
 
 
 def replay(ctx, case):
